@@ -9,6 +9,10 @@ from .graph import tlc_json
 def artefacts(tier):
     ensure_libs()
     cfg = "Plug_q.cfg" if tier == "quick" else "Plug_t.cfg"
+    # the loop as found before 3f00beb (one import tried per export): TLC must refute ImplConforms;
+    # "a successful plug always encodes" is refuted for the code as it is (KF27)
+    tlc_cached("plug-found", "Plug", "Plug_found.cfg", workers=1, timeout=900, keep=("NOTHING",), expect_violation="ImplConforms")
+    tlc_cached("plug-kf27", "Plug", "Plug_kf27.cfg", workers=1, timeout=900, keep=("NOTHING",), expect_violation="SuccessEncodes")
     return tlc_cached(f"plug-{tier}", "Plug", cfg, workers=4, timeout=1800)
 
 
@@ -34,5 +38,10 @@ def run_property(prop, tier, report):
     cov["rule"] = ("every socket x every ordered list of 1..N distinct plugs of the plug library (N=3 quick, 4 thorough); "
                    "TLC checks that the transcribed loop of plug.rs conforms to the contract in every case and prints what "
                    "the contract allows; the real plug() is run on real packages and its result class, wiring (through "
-                   "the public queries), instantiated plugs, re-exports and encoded interface are compared")
+                   "the public queries), instantiated plugs, re-exports and encoded interface are compared: the imports "
+                   "of the result are the socket imports that are left and the imports of the contributing plugs, merged "
+                   "per semver track under the highest version (tracks/ranks/unmergeable pairs computed by Plug.tla; for "
+                   "the Impl layer's own wiring also its predicted import set).  Library: 5 sockets (two with two imports on "
+                   "one track, of equal and of different shapes; a middleware shape) and 9 plugs (exact / lower / higher "
+                   "versions, wider instances, idle plugs, plugs with imports that clash with or supersede a socket import)")
     cov["samples"] = samples
